@@ -1,5 +1,6 @@
 (* C07 — Equals is exactly typed structural equality, hence an equivalence relation (on NaN-free data). *)
 From Anytype Require Import Base FloatBits Value Equality.
+From Anytype Require Heap.
 Local Open Scope Z_scope.
 
 (* [veq] transcribes the three isEqual methods; [seqP] is typed structural equality defined independently
@@ -40,6 +41,28 @@ Example C07_no_count_test_refuted :
   veq (VObj [(B"a", VInt 1)]) (VObj [(B"a", VInt 1); (B"b", VInt 2)]) = false.
 Proof. vm_compute. split; reflexivity. Qed.
 
+(* ---- on the heap (Heap.v): Equals is an observer and nothing else. Whatever the two registers hold, the step leaves the whole
+   state - every cell, every register - exactly as it was (it "never modifies either operand", nor anything else), it never
+   panics, and when both operands read as trees its answer is veq of the two trees: a function of what the operands denote, not of
+   their identity, their history or earlier calls *)
+Theorem C07_heap_equals_is_an_observer : forall s r a,
+  fst (Heap.step_core s (Heap.Equals r a)) = s /\ snd (Heap.step_core s (Heap.Equals r a)) <> Heap.Pan.
+Proof.
+  intros s r a. cbn [Heap.step_core].
+  destruct (nth_error (Heap.st_env s) r) as [x|]; [|split; [reflexivity | discriminate]].
+  destruct (nth_error (Heap.st_env s) a) as [y|]; [|split; [reflexivity | discriminate]].
+  destruct (Heap.reify _ _ x) as [vx|]; [|split; [reflexivity | discriminate]].
+  destruct (Heap.reify _ _ y) as [vy|]; split; try reflexivity; discriminate.
+Qed.
+Theorem C07_heap_equals_answer : forall s r a x y vx vy,
+  nth_error (Heap.st_env s) r = Some x -> nth_error (Heap.st_env s) a = Some y ->
+  Heap.reify (Heap.fuel_of (Heap.st_heap s)) (Heap.st_heap s) x = Some vx ->
+  Heap.reify (Heap.fuel_of (Heap.st_heap s)) (Heap.st_heap s) y = Some vy ->
+  Heap.step_core s (Heap.Equals r a) = (s, Heap.Ret (Heap.OB (veq vx vy))).
+Proof. intros s r a x y vx vy Hx Hy Rx Ry. cbn [Heap.step_core]. rewrite Hx, Hy, Rx, Ry. reflexivity. Qed.
+
+Print Assumptions C07_heap_equals_is_an_observer.
+Print Assumptions C07_heap_equals_answer.
 Print Assumptions C07_spec.
 Print Assumptions C07_refl.
 Print Assumptions C07_sym.
